@@ -155,7 +155,8 @@ def cbmc_cmd(u, tier, binary, extra=()):
     uw = u.get("unwind_thorough" if tier == "thorough" else "unwind", u.get("unwind"))
     if uw:
         cmd += ["--unwind", str(uw), "--unwinding-assertions"]
-    for k, v in u.get("unwindset", {}).items():
+    uws = u.get("unwindset_thorough", u.get("unwindset", {})) if tier == "thorough" else u.get("unwindset", {})
+    for k, v in uws.items():
         cmd += ["--unwindset", "%s:%d" % (k, v)]
     if u.get("unwindset") and not uw:
         cmd += ["--unwinding-assertions"]
@@ -338,7 +339,7 @@ def native_replay(u, ob, inputs, replay_dir):
         defs = ["-DV_NATIVE", "-DNDEBUG", "-D_GNU_SOURCE", "-DLIBMODULE_LOG_CTX=" + u.get("logctx", "CORE"), "-std=gnu11"]
         defs += ["-D" + d for d in u.get("defines", [])] + ["-D" + d for d in u.get("defines_native", [])]
         cmd = ["gcc", "-g", "-O0", "-fsanitize=address,undefined", "-fno-omit-frame-pointer", "-w"] + defs + \
-              ["-I" + wd] + inc_flags() + [os.path.join(VERIF, u["src"]), "-o", exe, "-lpthread", "-ldl"]
+              ["-I" + wd] + inc_flags() + [os.path.join(VERIF, u["src"]), "-o", exe, "-lpthread", "-ldl", "-ffunction-sections", "-Wl,--gc-sections"]
         rc, out, err, _ = run(cmd, 180, 32)
         info["build_cmd"] = " ".join(cmd)
         if rc != 0:
